@@ -1298,7 +1298,9 @@ theorem Accessor.toF {n : Node} (h : Accessor n = true) : AccessorF n = true := 
   class for lax totality of `Accessor` paths;
 * `plainOK`: `lenOK`, and no datetime items and no `json.Number`s: what `encoding/json` decodes into by
   default.  Comparisons between such items neither err nor panic (`FilterOK.cmp`) — the class for
-  `AccessorF` paths. -/
+  `AccessorF` paths;
+* `plainNumOK`: the same with `json.Number`s allowed; here "comparisons do not panic" is
+  `C05.compare_never_panics`, which assumes the `strconv` law `IntTextIsFloat`. -/
 
 theorem docClass_true : DocClass (fun _ => True) :=
   ⟨fun _ _ _ _ => trivial, fun _ _ _ _ _ => trivial, fun _ _ _ _ => trivial, trivial, fun _ => trivial,
@@ -1318,20 +1320,26 @@ mutual
 end
 
 mutual
-  /-- `lenOK`, no datetime item, no `json.Number` -/
-  def plainOK : Item → Bool
-    | .arr xs => decide (xs.length ≤ 2147483648) && plainOKList xs
-    | .obj kvs => plainOKMembers kvs
+  /-- `lenOK`, no datetime item, and — unless `jn` — no `json.Number` -/
+  def plainG (jn : Bool) : Item → Bool
+    | .arr xs => decide (xs.length ≤ 2147483648) && plainGList jn xs
+    | .obj kvs => plainGMembers jn kvs
     | .dt _ => false
-    | .jnum _ => false
+    | .jnum _ => jn
     | _ => true
-  def plainOKList : List Item → Bool
+  def plainGList (jn : Bool) : List Item → Bool
     | [] => true
-    | x :: xs => plainOK x && plainOKList xs
-  def plainOKMembers : List (List Char × Item) → Bool
+    | x :: xs => plainG jn x && plainGList jn xs
+  def plainGMembers (jn : Bool) : List (List Char × Item) → Bool
     | [] => true
-    | (_, v) :: rest => plainOK v && plainOKMembers rest
+    | (_, v) :: rest => plainG jn v && plainGMembers jn rest
 end
+
+/-- what `encoding/json` decodes into by default: `nil`, `bool`, `float64`, `string`, `[]any`,
+    `map[string]any` (and `int64`), arrays of at most 2^31 elements -/
+def plainOK (v : Item) : Bool := plainG false v
+/-- the same with `json.Number`s (`Decoder.UseNumber`) -/
+def plainNumOK (v : Item) : Bool := plainG true v
 
 theorem lenOKList_mem {xs : List Item} (h : lenOKList xs = true) : ∀ x ∈ xs, lenOK x = true := by
   induction xs with
@@ -1383,63 +1391,84 @@ theorem docClass_lenOK : DocClass (fun v => lenOK v = true) where
   flt := fun _ => rfl
   str := fun _ => rfl
 
-theorem plainOKList_mem {xs : List Item} (h : plainOKList xs = true) : ∀ x ∈ xs, plainOK x = true := by
+theorem plainGList_mem {jn : Bool} {xs : List Item} (h : plainGList jn xs = true) :
+    ∀ x ∈ xs, plainG jn x = true := by
   induction xs with
   | nil => intro x hx; cases hx
   | cons y ys ih =>
-    simp only [plainOKList, Bool.and_eq_true] at h
+    simp only [plainGList, Bool.and_eq_true] at h
     intro x hx
     rcases List.mem_cons.mp hx with rfl | hx
     · exact h.1
     · exact ih h.2 x hx
 
-theorem plainOKMembers_lookup {kvs : List (List Char × Item)} (h : plainOKMembers kvs = true) (k : List Char)
-    (v : Item) (hl : Item.lookup k kvs = some v) : plainOK v = true := by
+theorem plainGMembers_lookup {jn : Bool} {kvs : List (List Char × Item)} (h : plainGMembers jn kvs = true)
+    (k : List Char) (v : Item) (hl : Item.lookup k kvs = some v) : plainG jn v = true := by
   induction kvs with
   | nil => simp [Item.lookup] at hl
   | cons kv rest ih =>
     obtain ⟨k', v'⟩ := kv
-    simp only [plainOKMembers, Bool.and_eq_true] at h
+    simp only [plainGMembers, Bool.and_eq_true] at h
     simp only [Item.lookup] at hl
     split at hl
     · simp at hl; subst hl; exact h.1
     · exact ih h.2 hl
 
-theorem plainOKMembers_members {kvs : List (List Char × Item)} (h : plainOKMembers kvs = true) :
-    ∀ x ∈ members kvs, plainOK x = true := by
+theorem plainGMembers_members {jn : Bool} {kvs : List (List Char × Item)} (h : plainGMembers jn kvs = true) :
+    ∀ x ∈ members kvs, plainG jn x = true := by
   induction kvs with
   | nil => intro x hx; simp [members] at hx
   | cons kv rest ih =>
     obtain ⟨k', v'⟩ := kv
-    simp only [plainOKMembers, Bool.and_eq_true] at h
+    simp only [plainGMembers, Bool.and_eq_true] at h
     intro x hx
     simp only [members, List.map_cons, List.mem_cons] at hx
     rcases hx with rfl | hx
     · exact h.1
     · exact ih h.2 x (by simpa [members] using hx)
 
-theorem plainOK_arr {xs : List Item} (h : plainOK (.arr xs) = true) :
-    xs.length ≤ 2147483648 ∧ ∀ x ∈ xs, plainOK x = true := by
-  simp only [plainOK, Bool.and_eq_true, decide_eq_true_eq] at h
-  exact ⟨h.1, plainOKList_mem h.2⟩
+theorem plainG_arr {jn : Bool} {xs : List Item} (h : plainG jn (.arr xs) = true) :
+    xs.length ≤ 2147483648 ∧ ∀ x ∈ xs, plainG jn x = true := by
+  simp only [plainG, Bool.and_eq_true, decide_eq_true_eq] at h
+  exact ⟨h.1, plainGList_mem h.2⟩
 
-theorem docClass_plainOK : DocClass (fun v => plainOK v = true) where
-  arr := fun _ h => (plainOK_arr h).2
-  lookup := fun kvs k v h hl => plainOKMembers_lookup (by simpa [plainOK] using h) k v hl
-  members := fun kvs h => plainOKMembers_members (by simpa [plainOK] using h)
+theorem docClass_plainG (jn : Bool) : DocClass (fun v => plainG jn v = true) where
+  arr := fun _ h => (plainG_arr h).2
+  lookup := fun kvs k v h hl => plainGMembers_lookup (by simpa [plainG] using h) k v hl
+  members := fun kvs h => plainGMembers_members (by simpa [plainG] using h)
   null := rfl
   bool := fun _ => rfl
   int := fun _ => rfl
   flt := fun _ => rfl
   str := fun _ => rfl
 
+theorem plainG_notDT {jn : Bool} {v : Item} (h : plainG jn v = true) : ∀ d, v ≠ .dt d := by
+  intro d hd; subst hd; simp [plainG] at h
+
+theorem applyCompare_none (op : BinOp) (cmp : Int) (hop : isCompareOp op = true) :
+    (applyCompare op cmp).2 = none := by
+  cases op <;> simp [isCompareOp] at hop <;> rfl
+
+/-- a comparison (`== != < <= > >=`) of two items that are not datetimes returns no error -/
+theorem compareItems_err_none (c : Ctx) (op : BinOp) (l r : Item) (hop : isCompareOp op = true)
+    (hl : ∀ d, l ≠ .dt d) (hr : ∀ d, r ≠ .dt d) : ∀ p e, compareItems c op l r = .val p e → e = none := by
+  intro p e
+  unfold compareItems compareNumberItems cmpOut
+  repeat' split
+  all_goals
+    intro h
+    first
+      | exact absurd rfl (hl _)
+      | exact absurd rfl (hr _)
+      | (cases h <;> first | rfl | exact applyCompare_none _ _ hop)
+
 theorem cmpOut_clean (op : BinOp) (cmp : Int) (h : isCompareOp op = true) : CbClean (cmpOut op cmp) := by
   cases op <;> simp [isCompareOp] at h <;> simp [cmpOut, applyCompare, CbClean]
 
-/-- comparing two plain items neither errs nor panics -/
+/-- comparing two plain items (no `json.Number`) neither errs nor panics -/
 theorem compareItems_plain (c : Ctx) (op : BinOp) (l r : Item) (hop : isCompareOp op = true)
-    (hl : plainOK l = true) (hr : plainOK r = true) : CbClean (compareItems c op l r) := by
-  cases l <;> cases r <;> simp [plainOK] at hl hr <;>
+    (hl : plainG false l = true) (hr : plainG false r = true) : CbClean (compareItems c op l r) := by
+  cases l <;> cases r <;> simp [plainG] at hl hr <;>
     simp only [compareItems, compareNumberItems, isNumber, parsableNumber, compareBool, Num.compareNumeric,
       Bool.not_true, Bool.or_self, Bool.false_eq_true, if_false, if_true] <;>
     first
@@ -1450,6 +1479,18 @@ theorem compareItems_plain (c : Ctx) (op : BinOp) (l r : Item) (hop : isCompareO
 theorem filterOK_plain (c : Ctx) (hre : ∀ p fl t, (c.regexMatch p fl t).isSome = true) :
     FilterOK c (fun v => plainOK v = true) :=
   ⟨hre, fun op l r hop hl hr => compareItems_plain c op l r hop hl hr⟩
+
+/-- with `json.Number`s: given that comparisons do not panic (`C05.compare_never_panics`, which rests
+    on the `strconv` law `IntTextIsFloat`) -/
+theorem filterOK_plainNum (c : Ctx) (hre : ∀ p fl t, (c.regexMatch p fl t).isSome = true)
+    (hnp : ∀ op l r, compareItems c op l r ≠ .panic) :
+    FilterOK c (fun v => plainNumOK v = true) := by
+  refine ⟨hre, fun op l r hop hl hr => ?_⟩
+  have herr := compareItems_err_none c op l r hop (plainG_notDT hl) (plainG_notDT hr)
+  have := hnp op l r
+  cases h : compareItems c op l r with
+  | panic => exact absurd h this
+  | val p e => exact herr p e h
 
 
 end Lax
